@@ -154,6 +154,20 @@ def _tracks(draw, ctx):
                   [T_ - t - 1 for T_ in later[:2] if T_ - t - 1 >= 0]
         mx = max_tick - t
         opts = [st.just(0), st.integers(0, min(mx, 400)), st.integers(0, mx)]
+        # lengths that stand in a relation to the rest of the chart: ending on / next to the following
+        # notes, as long as the gap just played, the previous note's length again, fractions of a beat
+        r = tmap["res"]
+        rel = {r, r // 2, r // 3, r // 4, 2 * r, 4 * r, r - 1, r + 1}
+        for d in (1, 2):
+            if j + d < len(ticks):
+                rel |= {ticks[j + d] - t - 1, ticks[j + d] - t, ticks[j + d] - t + 1}
+        if j:
+            rel.add(t - ticks[j - 1])
+            prev = notes[-1]["lens"]
+            rel |= set(prev) if isinstance(prev, list) else {prev}
+        rel = sorted(x for x in rel if 0 < x <= mx)
+        if rel:
+            opts.append(st.sampled_from(rel))
         if targets:
             opts.append(st.sampled_from([x for x in targets if x <= mx] or [0]))
             opts.append(st.sampled_from([x for x in targets if x <= mx] or [0]))
@@ -177,6 +191,11 @@ def _tracks(draw, ctx):
     phrases = [[t, min(max_tick - t, ln)] for t, ln in
                sorted(draw(st.lists(st.tuples(tick_st, st.integers(0, 2000)), max_size=2)))]
     items = G.merge_track_items(notes, phrases, [])
+    lifted = G.lift_items(draw, items, tmap["res"], one_in=10, allow64=False)
+    if lifted:
+        # the whole track moved up across 2^31 / 2^32 / 2^33 under one (the fastest) tempo
+        items, tempo, _ = lifted
+        return {"res": tmap["res"], "tempo": tempo, "items": items, "fmt": 0}
     return {"res": tmap["res"], "tempo": tmap["tempo"], "items": items,
             "fmt": draw(st.one_of(st.just(0), st.just(0), st.integers(1, 10 ** 6)))}
 
